@@ -511,8 +511,9 @@ def run_check(cfg, prop, tier, seed, workers, replay=None, keep=False):
         if not counters.get(need):
             if not new_viols:
                 inconclusive.append("monitor counter %r is zero: the monitored events were never observed" % need)
-    os.makedirs(os.path.join(VERIF, "evidence"), exist_ok=True)
-    evp = os.path.join(VERIF, "evidence", prop + ".json")
+    evdir = os.environ.get("VERIF_EVIDENCE_DIR") or os.path.join(VERIF, "evidence")   # seeded-change runs redirect their evidence
+    os.makedirs(evdir, exist_ok=True)
+    evp = os.path.join(evdir, prop + ".json")
     if inconclusive:
         ev["coverage"]["inconclusive"] = inconclusive
     with open(evp + ".tmp", "w") as f:
